@@ -7,8 +7,15 @@ Model: SophiaModel/Model/Iso.lean (`iso deep sort h fuel D₁ D₂`, a transcrip
   `sort`  `sort_unstable`, constrained by `SortSpec` (permutation; sorted if the comparator is a total preorder);
   `h`     the hash (`DefaultHasher`) as an arbitrary function of what is fed to it;
   `fuel`  bound on the rounds of the refinement loop (`none` = exhausted; termination is not claimed).
+
+Headline for the code as it is: `repo_variant` (the regenerated flag is the recursive variant — a regression of
+iso_term.rs to the top-level-only comparison makes this obligation fail), `iso_relabel_repo`, and the two
+oracle theorems `certOk_sound` / `groundDiffers_sound`, which state the clauses for exactly the tests
+(Model/IsoOracle.lean) from which the differential driver derives `o.iso=1` / `o.iso=0`.
 -/
 import SophiaProofs.Lemmas.IsoColour
+import SophiaModel.Gen.IsoVariant
+import SophiaModel.Model.IsoOracle
 import Mathlib.Data.List.Dedup
 
 namespace SophiaProofs.C07
@@ -32,6 +39,38 @@ theorem iso_of_gates (deep : Bool) (sort : List Quad → List Quad) (h : List Ev
         (initMap (makeB2q (sort D1))) (initMap (makeB2q (sort D2))) 0 0 := by
   simp only [gates, Bool.and_eq_true] at hg
   simp [iso, hg.1.1, hg.1.2, hg.2]
+
+/-- what the driver prints as `gates=`: the three gate fields conjoined, the two sorts shared -/
+theorem gates_unfold (deep : Bool) (sort : List Quad → List Quad) (D1 D2 : List Quad) :
+    gates deep sort D1 D2 =
+      (sizeGate D1 D2 && zipGate deep (sort D1) (sort D2) && bcountGate (makeB2q (sort D1)) (makeB2q (sort D2))) := rfl
+
+/-! ### more fuel never changes an answer -/
+
+theorem refine_fuel_mono (h : List Ev → UInt64) (d1 d2 : List Quad) (b1 b2 : B2Q) (fuel k : Nat) (m1 m2 : CMap)
+    (o1 o2 : Nat) (b : Bool) (hb : refine h d1 d2 b1 b2 fuel m1 m2 o1 o2 = some b) :
+    refine h d1 d2 b1 b2 (fuel + k) m1 m2 o1 o2 = some b := by
+  induction fuel generalizing m1 m2 o1 o2 with
+  | zero => simp [refine] at hb
+  | succ fuel ih =>
+    rw [Nat.add_right_comm]
+    simp only [refine] at hb ⊢
+    split
+    · simpa [*] using hb
+    · split
+      · simpa [*] using hb
+      · simp only [*] at hb
+        exact ih _ _ _ _ (by simpa using hb)
+
+/-- an answer, once given, is the answer for every larger bound on the number of rounds: `fuel` only decides
+between "answered" and "not yet" (`none`), never between `true` and `false` -/
+theorem iso_fuel_mono (deep : Bool) (sort : List Quad → List Quad) (h : List Ev → UInt64) (fuel k : Nat)
+    (D1 D2 : List Quad) (b : Bool) (hb : iso deep sort h fuel D1 D2 = some b) :
+    iso deep sort h (fuel + k) D1 D2 = some b := by
+  cases hg : gates deep sort D1 D2
+  · rw [iso_false_of_gates _ _ _ _ _ _ hg] at hb ⊢; exact hb
+  · rw [iso_of_gates _ _ _ _ _ _ hg] at hb ⊢
+    exact refine_fuel_mono _ _ _ _ _ _ _ _ _ _ _ _ hb
 
 /-! ### symmetry -/
 
@@ -204,11 +243,29 @@ def IsoRelabel (deep : Bool) : Prop :=
     (β : Str → Str) (D1 D2 : List Quad), (∀ q ∈ D1, WFq q) → Relabelled β D1 D2 →
     gates deep sort D1 D2 = true ∧ iso deep sort h fuel D1 D2 ≠ some false
 
-/-- with `IsoTerm` recursing into quoted triples (notes/fixes/C07-nested-bnodes.diff) the full statement holds -/
+/-- with `IsoTerm` recursing into quoted triples (what /repo has since fix 0aad566, see `repo_variant`) the full
+statement holds -/
 theorem iso_relabel : IsoRelabel true :=
   fun sort hs h fuel β D1 D2 hwf R =>
     ⟨gates_relabel_gen true sort hs β D1 D2 hwf R (blankInv_deep β D1),
      iso_relabel_gen true sort hs h fuel β D1 D2 hwf R (blankInv_deep β D1)⟩
+
+/-- The `IsoTerm` variant regenerated from /repo's iso_term.rs (tools/extractors/c07.py) is the recursive one.
+If the source regresses to the top-level-only comparison the extractor emits `deep := false` and this
+obligation fails. -/
+theorem repo_variant : Gen.IsoVariant.deep = true := by decide
+
+/-- the first clause of the property, full statement, for the variant /repo has -/
+theorem iso_relabel_repo : IsoRelabel Gen.IsoVariant.deep := repo_variant ▸ iso_relabel
+
+/-- "answers true", as far as partial correctness goes: on a relabelled, reordered copy every answer the
+loop gives — at whatever fuel — is `true` -/
+theorem iso_relabel_answers_true (sort : List Quad → List Quad) (hs : SortSpec (quadCmp Gen.IsoVariant.deep) sort)
+    (h : List Ev → UInt64) (fuel : Nat) (β : Str → Str) (D1 D2 : List Quad) (hwf : ∀ q ∈ D1, WFq q)
+    (R : Relabelled β D1 D2) (b : Bool) (hb : iso Gen.IsoVariant.deep sort h fuel D1 D2 = some b) : b = true := by
+  cases b
+  · exact absurd hb (iso_relabel_repo sort hs h fuel β D1 D2 hwf R).2
+  · rfl
 
 /-- `β` leaves alone every blank node that occurs *inside a quoted triple* of `D` (in particular: no blank
 node occurs inside a quoted triple) -/
@@ -240,8 +297,9 @@ theorem blankInv_of_nestedFixed (deep : Bool) (β : Str → Str) (D : List Quad)
   | none => rfl
   | some g => simp [e g (by simp [iterSpog, hg])]
 
-/-- what holds of the code as it is (`deep = false`, and equally of the repaired one): no false negative
-when the renaming leaves alone the blank nodes inside quoted triples -/
+/-- what holds of *either* variant of `IsoTerm` (in particular of the top-level-only one /repo had before fix
+0aad566): no false negative when the renaming leaves alone the blank nodes inside quoted triples.
+Full statement for that variant: `IsoRelabel false`, refuted below (`iso_relabel_fails_shallow`). -/
 theorem iso_relabel_partial (deep : Bool) (sort : List Quad → List Quad) (hs : SortSpec (quadCmp deep) sort)
     (h : List Ev → UInt64) (fuel : Nat) (β : Str → Str) (D1 D2 : List Quad) (hwf : ∀ q ∈ D1, WFq q)
     (R : Relabelled β D1 D2) (hn : NestedFixed β D1) :
@@ -249,7 +307,136 @@ theorem iso_relabel_partial (deep : Bool) (sort : List Quad → List Quad) (hs :
   ⟨gates_relabel_gen deep sort hs β D1 D2 hwf R (blankInv_of_nestedFixed deep β D1 hn),
    iso_relabel_gen deep sort hs h fuel β D1 D2 hwf R (blankInv_of_nestedFixed deep β D1 hn)⟩
 
-/-! ### the snapshot's `IsoTerm` (`deep = false`) refutes the full statement: 1-quad witness -/
+/-! ### the oracle of the differential check is covered by the theorems -/
+
+theorem mem_distinct (l : List Str) (x : Str) : x ∈ IsoOracle.distinct l ↔ x ∈ l := by
+  induction l with
+  | nil => simp [IsoOracle.distinct]
+  | cons a l ih =>
+    simp only [IsoOracle.distinct]
+    split
+    · rename_i hc
+      simp only [List.contains_iff_mem] at hc
+      rw [ih, List.mem_cons]
+      constructor
+      · exact Or.inr
+      · rintro (rfl | h)
+        · exact hc
+        · exact h
+    · simp [ih]
+
+theorem nodup_distinct (l : List Str) : (IsoOracle.distinct l).Nodup := by
+  induction l with
+  | nil => simp [IsoOracle.distinct]
+  | cons a l ih =>
+    simp only [IsoOracle.distinct]
+    split
+    · exact ih
+    · rename_i hc
+      simp only [List.contains_iff_mem] at hc
+      exact List.nodup_cons.2 ⟨fun h => hc ((mem_distinct l a).1 h), ih⟩
+
+theorem distinct_length (l : List Str) : (IsoOracle.distinct l).length = l.dedup.length := by
+  apply List.Perm.length_eq
+  rw [List.perm_ext_iff_of_nodup (nodup_distinct l) (List.nodup_dedup l)]
+  intro x
+  rw [mem_distinct, List.mem_dedup]
+
+theorem oracle_labels_length (D : List Quad) : (IsoOracle.labels D).length = bnodeCount D := by
+  simp [IsoOracle.labels, bnodeCount, labels, distinct_length]
+
+theorem normT_eq (t : Term) : IsoOracle.normT t = C02.norm t := by
+  induction t with
+  | triple s p o ihs ihp iho => simp [IsoOracle.normT, C02.norm, ihs, ihp, iho]
+  | _ => simp [IsoOracle.normT, C02.norm]
+
+theorem blankT_eq (t : Term) : IsoOracle.blankT t = blank true t := by
+  induction t with
+  | triple s p o ihs ihp iho => simp [IsoOracle.blankT, blank, ihs, ihp, iho]
+  | _ => simp [IsoOracle.blankT, blank]
+
+theorem oracle_blanked (D : List Quad) :
+    D.map (IsoOracle.mapQ (fun t => IsoOracle.normT (IsoOracle.blankT t))) = blanked D := by
+  simp only [blanked]
+  apply List.map_congr_left
+  intro q _
+  cases hg : q.g <;> simp [IsoOracle.mapQ, mapQ, canon, normT_eq, blankT_eq, hg]
+
+/-- **`o.iso=0` is sound**: whenever the driver's oracle says "must be false" (sizes, blank node counts or
+blanked-out statements differ), the model answers `false` — for every `IsoTerm` variant, every sort returning
+a permutation, every hash function, every fuel. -/
+theorem groundDiffers_sound (deep : Bool) (sort : List Quad → List Quad) (hperm : ∀ l, (sort l).Perm l)
+    (h : List Ev → UInt64) (fuel : Nat) (D1 D2 : List Quad) (hg : IsoOracle.groundDiffers D1 D2 = true) :
+    iso deep sort h fuel D1 D2 = some false := by
+  simp only [IsoOracle.groundDiffers, Bool.or_eq_true, bne_iff_ne, ne_eq, Bool.not_eq_true',
+    oracle_labels_length, oracle_blanked] at hg
+  rcases hg with (hg | hg) | hg
+  · exact iso_false_size deep sort h fuel D1 D2 hg
+  · exact iso_false_bcount deep sort hperm h fuel D1 D2 hg
+  · refine iso_false_ground deep sort hperm h fuel D1 D2 ?_
+    rw [← List.isPerm_iff]; simp [hg]
+
+theorem relabelT_eq (β : List (Str × Str)) (t : Term) : IsoOracle.relabelT β t = relabel (IsoOracle.applyβ β) t := by
+  induction t with
+  | triple s p o ihs ihp iho => simp [IsoOracle.relabelT, relabel, ihs, ihp, iho]
+  | _ => simp [IsoOracle.relabelT, relabel]
+
+theorem length_distinct_le (l : List Str) : (IsoOracle.distinct l).length ≤ l.length := by
+  induction l with
+  | nil => simp [IsoOracle.distinct]
+  | cons a l ih =>
+    simp only [IsoOracle.distinct]
+    split <;> simp <;> omega
+
+theorem nodup_of_distinct_length (l : List Str) (h : (IsoOracle.distinct l).length = l.length) : l.Nodup := by
+  induction l with
+  | nil => simp
+  | cons a l ih =>
+    simp only [IsoOracle.distinct] at h
+    split at h
+    · have := length_distinct_le l
+      simp at h; omega
+    · rename_i hc
+      simp only [List.contains_iff_mem] at hc
+      simp only [List.length_cons, Nat.add_right_cancel_iff] at h
+      exact List.nodup_cons.2 ⟨hc, ih h⟩
+
+/-- the certificate test of the oracle establishes the hypothesis `Relabelled` of `iso_relabel` -/
+theorem relabelled_of_certOk (β : List (Str × Str)) (D1 D2 : List Quad) (hc : IsoOracle.certOk β D1 D2 = true) :
+    Relabelled (IsoOracle.applyβ β) D1 D2 := by
+  simp only [IsoOracle.certOk, Bool.and_eq_true, beq_iff_eq, List.isPerm_iff] at hc
+  obtain ⟨hl, hp⟩ := hc
+  refine ⟨?_, ?_⟩
+  · have hn := nodup_of_distinct_length ((IsoOracle.labels D1).map (IsoOracle.applyβ β)) (by rw [hl, List.length_map])
+    intro a ha b hb e
+    have ha' : a ∈ IsoOracle.labels D1 := (mem_distinct _ a).2 ha
+    have hb' : b ∈ IsoOracle.labels D1 := (mem_distinct _ b).2 hb
+    exact List.inj_on_of_nodup_map hn ha' hb' e
+  · refine hp.symm.trans (List.Perm.of_eq ?_)
+    apply List.map_congr_left
+    intro q _
+    simp only [IsoOracle.mapQ, relabelQ, mapQ, relabelT_eq]
+    cases q.g <;> simp [relabelT_eq]
+
+theorem wfq_of_wfQ (D : List Quad) (h : D.all IsoOracle.wfQ = true) : ∀ q ∈ D, WFq q := by
+  intro q hq
+  have := List.all_eq_true.1 h q hq
+  simp only [IsoOracle.wfQ, Bool.and_eq_true] at this
+  refine ⟨this.1.1.1, this.1.1.2, this.1.2, ?_⟩
+  intro g hg
+  simpa [hg] using this.2
+
+/-- **`o.iso=1` is sound**: whenever the driver's oracle says "must be true" (the request carries a verified
+renaming certificate), the model — with the `IsoTerm` variant /repo has — passes all three gates and never
+answers `false`. -/
+theorem certOk_sound (sort : List Quad → List Quad) (hs : SortSpec (quadCmp Gen.IsoVariant.deep) sort)
+    (h : List Ev → UInt64) (fuel : Nat) (β : List (Str × Str)) (D1 D2 : List Quad) (hwf : D1.all IsoOracle.wfQ = true)
+    (hc : IsoOracle.certOk β D1 D2 = true) :
+    gates Gen.IsoVariant.deep sort D1 D2 = true ∧ iso Gen.IsoVariant.deep sort h fuel D1 D2 ≠ some false :=
+  iso_relabel_repo sort hs h fuel _ D1 D2 (wfq_of_wfQ D1 hwf) (relabelled_of_certOk β D1 D2 hc)
+
+/-! ### the former `IsoTerm` (`deep = false`, before fix 0aad566) refutes the full statement: 1-quad witness
+(kept as the record of the repaired defect; no longer counted among the obligations) -/
 
 /-- `<< _:a <x:p> <x:o> >> <x:p> <x:o> .` -/
 def witnessD (b : String) : List Quad :=
@@ -322,5 +509,15 @@ example : ∃ (β : Str → Str) (D1 D2 : List Quad), Relabelled β D1 D2 ∧ Ne
 example : bnodeCount (witnessD "a") ≠ bnodeCount [] := by decide
 example : ¬ (blanked (witnessD "a")).Perm (blanked [⟨.iri "x:s".toList, .iri "x:p".toList, .iri "x:o".toList, none⟩]) := by
   rw [← List.isPerm_iff]; decide
+
+-- the oracle's certificate test is satisfiable with a renaming that moves a blank node inside a quoted triple,
+-- and its "must be false" test by a pair differing in one split blank node (same size, same blanked statements)
+example : IsoOracle.certOk [("a".toList, "b".toList), ("b".toList, "a".toList)] (witnessD "a") (witnessD "b") = true ∧
+    (witnessD "a").all IsoOracle.wfQ = true := by decide
+example : IsoOracle.groundDiffers
+    [⟨.bnode "a".toList, .iri "x:p".toList, .bnode "a".toList, some (.bnode "a".toList)⟩]
+    [⟨.bnode "a".toList, .iri "x:p".toList, .bnode "b".toList, some (.bnode "a".toList)⟩] = true := by decide
+-- `iso_fuel_mono` / `iso_relabel_answers_true` are not vacuous: the loop does answer (here with a constant hash, at fuel 2)
+example : iso true (isort true) (fun _ => 0) 2 (witnessD "a") (witnessD "b") = some true := by decide
 
 end SophiaProofs.C07
